@@ -1,13 +1,66 @@
 //go:build verif
 
-// Contracts for the verification harness in /verif (comment-only).
+// Contracts for the verification harness in /verif (comment-only; this file
+// contains no executable code and is compiled only with the verif tag).
 
 package vecnet
 
-// ReadFrom fills every buffer completely, in order, from the reader, or
-// returns an error (never a short success). Its body is not yet verified
-// (C17: see DESIGN.md).
+// ---- C17: ReadFrom fills the buffers with the next bytes of the stream, in
+// order, however the transport cuts the stream into reads ---------------------
+//
+// sumlens(bufs, k) (engine builtin): total length of the first k buffers;
+// sumlens(bufs): of all of them. sumsnoc / sumcons name the two unfoldings of
+// that sum (one more buffer at the end / the first buffer plus the rest); they
+// are true by definition and are written where the proof needs the instance. streamAt(k) (assumed.spec): byte k of the
+// stream behind the reader; a Read delivers the next n bytes of it,
+// 0 <= n <= len(p), n chosen by the transport.
+//@ constglobal readFromBuffers = func:readFromBuffersLinux [C17,C02]
+//
+//@ group fits
+//@   requires[C17,C02] @buffer-list-fits len(bufs) <= 1000000 && sumlens(bufs) <= 1099511627776 && forall(k, 0, len(bufs) + 1, sumlens(bufs, k) <= 1099511627776)
+//
+// Generic io.Reader path: proved against the body, including where every byte
+// lands (stated over absolute indices k of each buffer's backing array:
+// rawelem(b, k) for off(b) <= k < off(b)+len(b) is b[k-off(b)]). Socket path: readFromBuffersLinux below.
 //@ func (Buffers).ReadFrom
+//@   use fits
+//@   requires[C17] @buffers-are-distinct-arrays forall(a, off(bufs), off(bufs) + len(bufs), forall(b, off(bufs), off(bufs) + len(bufs), a != b ==> arr(rawelem(bufs, a)) != arr(rawelem(bufs, b))))
+//@   modifies arrays(byte), arrays([]byte), $consumed, $ncalls, $n.*
+//@   ensures[C17,C02] @counts-what-it-consumed result0 >= 0 && (result1 == nil ==> ghost("$consumed", int) == old(ghost("$consumed", int)) + int(result0))
+//@   ensures[C17,C02] @success-means-every-buffer-is-full result1 == nil ==> int(result0) == old(sumlens(bufs))
+//@   ensures[C17] @bytes-land-in-stream-order !implements(r, syscall.Conn) && result1 == nil ==> forall(i, 0, len(bufs), forall(k, off(bufs[i]), off(bufs[i]) + len(bufs[i]), rawelem(bufs[i], k) == streamAt(old(ghost("$consumed", int)) + sumlens(bufs, i) + (k - off(bufs[i])))))
+//@   loop 0 invariant[C17,C02] 0 <= rangeindex + 1 && rangeindex + 1 <= len(bufs) && int(total) == sumlens(bufs, rangeindex + 1) && ghost("$consumed", int) == old(ghost("$consumed", int)) + int(total) && total >= 0 && !implements(r, syscall.Conn) && sumsnoc(bufs, rangeindex + 1)
+//@   loop 0 invariant[C17] forall_lastsplit(i, 0, rangeindex + 1, forall(k, off(bufs[i]), off(bufs[i]) + len(bufs[i]), rawelem(bufs[i], k) == streamAt(old(ghost("$consumed", int)) + sumlens(bufs, i) + (k - off(bufs[i])))))
+//@   loop 1 invariant[C17,C02] 0 <= filled && filled <= len(buf) && buf == bufs[rangeindex + 1] && 0 <= rangeindex + 1 && rangeindex + 1 < len(bufs) && int(total) == sumlens(bufs, rangeindex + 1) + filled && ghost("$consumed", int) == old(ghost("$consumed", int)) + int(total) && !implements(r, syscall.Conn)
+//@   loop 1 invariant[C17] forall(k, off(bufs[rangeindex + 1]), off(bufs[rangeindex + 1]) + filled, rawelem(bufs[rangeindex + 1], k) == streamAt(old(ghost("$consumed", int)) + sumlens(bufs, rangeindex + 1) + (k - off(bufs[rangeindex + 1]))))
+//@   loop 1 invariant[C17] forall(i, 0, rangeindex + 1, forall(k, off(bufs[i]), off(bufs[i]) + len(bufs[i]), rawelem(bufs[i], k) == streamAt(old(ghost("$consumed", int)) + sumlens(bufs, i) + (k - off(bufs[i])))))
+//@   safety[C17,C02]
+//@   nopanic
+
+// Socket path. recvmsg (one readv through syscall.RawConn.Read, iovecs built
+// with unsafe pointers) is outside the generator's subset: its contract is
+// ASSUMED - it consumes at most sumlens(bufs) bytes of the stream, at least one
+// when it reports no error. What readFromBuffersLinux is proved to do with
+// that: it never indexes past the buffer list, it accounts for every byte
+// recvmsg reports while it advances the iovec list in place, it terminates,
+// and it succeeds only when it has consumed exactly the total length. That
+// the bytes land at the right places on this path is NOT decided
+// (assumed_ensures).
+//@ func recvmsg
 //@   abstract
 //@   modifies arrays(byte), $consumed
-//@   ensures result0 >= 0
+//@   ensures result0 >= 0 && ghost("$consumed", int) == old(ghost("$consumed", int)) + result0 && result0 <= sumlens(bufs)
+//@   ensures result1 == nil ==> result0 >= 1
+
+//@ func readFromBuffersLinux
+//@   use fits
+//@   modifies arrays(byte), arrays([]byte), $consumed
+//@   ensures[C17,C02] @counts-what-it-consumed result0 >= 0 && int(result0) <= old(sumlens(bufs0)) && (result1 == nil ==> ghost("$consumed", int) == old(ghost("$consumed", int)) + int(result0))
+//@   ensures[C17,C02] @success-means-every-buffer-is-full result1 == nil ==> int(result0) == old(sumlens(bufs0))
+//@   assumed_ensures[C17] @bytes-land-in-stream-order result1 == nil ==> forall(i, 0, len(bufs0), forall(j, 0, len(old(bufs0[i])), old(bufs0[i])[j] == streamAt(old(ghost("$consumed", int)) + old(sumlens(bufs0, i)) + j)))
+//@   loop 0 invariant[C17,C02] 0 <= rangeindex + 1 && rangeindex + 1 <= len(bufs) && int(length) == sumlens(bufs, rangeindex + 1) && length >= 0 && sumsnoc(bufs, rangeindex + 1)
+//@   loop 1 invariant[C17,C02] 0 <= n && int(n) + sumlens(bufs) == int(length) && int(length) == old(sumlens(bufs0)) && ghost("$consumed", int) == old(ghost("$consumed", int)) + int(n) && len(bufs) <= 1000000 && sumcons(bufs)
+//@   loop 1 decreases[C17] int(length) - int(n)
+//@   loop 2 invariant[C17,C02] 0 <= consumed && consumed <= cur && sumlens(bufs) + consumed == int(length) - int(n) + cur && len(bufs) <= 1000000 && int(length) == old(sumlens(bufs0)) && ghost("$consumed", int) == old(ghost("$consumed", int)) + int(n) && sumcons(bufs)
+//@   safety[C17,C02]
+//@   nopanic
